@@ -11,7 +11,7 @@ HARNESSES = [
     H("c13_aggregate::c13_2_anon_anon", loops=L, desc="two anonymous lines (never merged)", timeout=1800, expect_unsat_covers=("a merge happened",)),
     A("c13_2_heap_heap", "two [heap] lines: same-name merge iff contiguous"),
     H("c13_aggregate::c13_2_heap_anon", loops=L, desc="[heap] then anonymous (never merged: the reserved-gap rule needs a file mapping)", timeout=1800, est_gb=12, mem_gb=24, expect_unsat_covers=("a merge happened",)),
-    A("c13_2_anon_vdso_gate", "anonymous + [vdso] with a symbolic gate address (renaming)"),
+    H("c13_aggregate::c13_2_anon_vdso_gate", loops=L, desc="anonymous + [vdso] with a symbolic gate address (renaming; never merged)", timeout=1800, est_gb=12, mem_gb=24, expect_unsat_covers=("a merge happened",)),
     A("c13_3_heap_heap_heap", "three [heap] lines", "thorough"), A("c13_3_anon_heap_anon", "anonymous, [heap], anonymous", "thorough"),
     # file-named lines: every instance so far ran out of memory (19-25 GB within 9 min); kept for the thorough tier
     A("c13_2_same_adjacent", "same file, adjacent", "thorough", 3000), A("c13_2_diff_adjacent", "different files, adjacent", "thorough", 3000),
